@@ -17,14 +17,21 @@ R = Registry(
     title="Statement objects are immutable values; compilation is deterministic",
     decides=(
         "copy-on-write discipline: every @_generative method (and every hand-written clone-then-modify "
-        "function) mutates in place only containers it has rebound to a fresh copy, and uses `+=` only on "
-        "attributes that hold immutable values; _generate()/_clone() never share __dict__ with the original "
-        "and the decorator operates on the copy; compiler and CompileState methods store into / mutate an "
+        "function) mutates in place only containers it has rebound to a fresh copy -- directly, through a local "
+        "alias of (an element of) self.attr, or inside the non-generative self.helper() methods it calls on the "
+        "copy (depth 2) -- and uses `+=` only on attributes that hold immutable values under every binding, "
+        "including the container kind that the copy-internals traversal (_CopyInternalsTraversal.visit_<dp> via "
+        "_traverse_internals) rebinds on clones; only memoisations registered in _memoized_keys count as dropped "
+        "by a shallow copy (util.memoized_property values survive and are shared); _generate()/_clone() never "
+        "share __dict__ with the original, skip _memoized_keys, and the decorator operates on the copy; "
+        "compiler and CompileState methods store into / mutate an "
         "element only after rebinding it to a clone or a newly constructed element on every path; the "
         "name-producing functions of compilation use no hash()/id()/random/time source and no set iteration."
     ),
     not_decided=(
-        "pickling/deepcopy equality of statements, thread-level atomicity of memoisation, legacy Query paths "
+        "pickling/deepcopy equality of statements, thread-level atomicity of memoisation, deep freshness of nested "
+        "containers (an element of a copied container is treated as shared), HasShallowCopy/_shallow_copy_to "
+        "copies (ORM Load options), mutation through helpers reached other than as self.helper(), legacy Query paths "
         "outside the decorator family, determinism of user-supplied type/compile hooks."
     ),
 )
@@ -398,6 +405,10 @@ def _helper_mutations(ctx, f: FuncInfo, an: FreshAnalysis, gen_names, depth, see
                     path = ".".join(d.split(".")[:2])
                     state = an2.state_at(nid, path) if path != "self.__dict__" else an2.state_at(nid, "self")
                     yield path, state, n2, ch, f"{tgt.module.path}:{getattr(n2, 'lineno', tgt.node.lineno)}"
+                for nid, kind, root, d, n2 in an2.mutation_sinks():
+                    if root == "self" and kind == "attr-store" and isinstance(n2, ast.AugAssign) and d.count(".") == 1 \
+                            and an2.state_at(nid, d) != F:
+                        yield d, "AUG", n2, ch, f"{tgt.module.path}:{n2.lineno}"
                 for nid, path, state, n2 in _alias_sinks(an2, tgt.node):
                     yield path, state, n2, ch, f"{tgt.module.path}:{getattr(n2, 'lineno', tgt.node.lineno)}"
                 yield from _helper_mutations(ctx, tgt, an2, gen_names, depth + 1, seen, ch)
@@ -472,6 +483,20 @@ def r1(ctx):
         reported = set()
         for path, st, node, chain, loc in _helper_mutations(ctx, f, an, gen_names, 1, frozenset({f.key})):
             if st == F or (path, chain) in reported:
+                continue
+            if st == "AUG":
+                # `self.attr += v` inside a helper: same judgement as in the generative method itself
+                attr = path.split(".")[1]
+                kinds = [(_classify_value(ctx, v, k.module, k), k, v) for k, v in _attr_bindings(ctx, f.cls, attr)]
+                mut = [(k, v) for c, k, v in kinds if c == "mutable"]
+                if mut and f"{f.key}:{path}+=" not in aug_reported:
+                    bad = True
+                    aug_reported.add(f"{f.key}:{path}+=")
+                    k, v = mut[0]
+                    ctx.violation(f"{f.key}:{path}+=",
+                                  f"helper {' -> '.join(x.split('::')[1] for x in chain)}(): `{unparse(node)[:70]}`: {path} can hold a "
+                                  f"mutable value (`{unparse(v)[:50]}` in {k.key}); `+=` then extends the container shared "
+                                  f"with the original statement", loc, [f.key] + list(chain))
                 continue
             reported.add((path, chain))
             bad = True
@@ -747,3 +772,37 @@ R.mutant("truncate-uses-hash", "sql/compiler.py", sub("util.md5_hex(name)[-4:]",
 R.mutant("benign-contains-rename", "sql/compiler.py", sub("    def visit_contains_op_binary(self, binary, operator, **kw):\n        binary = binary._clone()\n        percent = self._like_percent_literal\n        binary.right = percent.concat(binary.right).concat(percent)\n        return self.visit_like_op_binary(binary, operator, **kw)",
                                                           "    def visit_contains_op_binary(self, binary, operator, **kw):\n        pct = self._like_percent_literal\n        binary = binary._clone()\n        binary.right = pct.concat(binary.right).concat(pct)\n        return self.visit_like_op_binary(binary, operator, **kw)"), None)
 R.mutant("benign-add-columns-copy-via-helper", Q, sub("        self._raw_columns = list(self._raw_columns)\n\n        self._raw_columns.extend(", "        cols = self._raw_columns\n        self._raw_columns = list(cols)\n\n        self._raw_columns.extend("), None)
+# -- seeds (independent adversarial patches, see /verif/seeded/C03_*) and neighbours
+C = "sql/compiler.py"
+_NE_OLD = "    def visit_not_endswith_op_binary(self, binary, operator, **kw):\n        binary = binary._clone()\n"
+R.mutant("seed1-not-endswith-no-clone", C, sub(_NE_OLD, "    def visit_not_endswith_op_binary(self, binary, operator, **kw):\n"), "C03-R3")
+R.mutant("benign-not-endswith-clone-via-helper", C, sub(
+    _NE_OLD,
+    "    def _like_private_copy(self, binary):\n        return binary._clone()\n\n"
+    "    def visit_not_endswith_op_binary(self, binary, operator, **kw):\n        binary = self._like_private_copy(binary)\n"), None)
+SEL = "sql/selectable.py"
+_SLS_OLD = "            self = self._generate()\n            select_0 = self.selects[0].set_label_style(style)\n            self.selects = [select_0] + self.selects[1:]\n"
+R.mutant("seed2-compound-set-label-style-in-place", SEL, sub(
+    _SLS_OLD, "            self = self._generate()\n            self.selects[0] = self.selects[0].set_label_style(style)\n"), "C03-R1")
+R.mutant("benign-compound-set-label-style-copy-then-store", SEL, sub(
+    _SLS_OLD,
+    "            self = self._generate()\n            new_selects = list(self.selects)\n"
+    "            new_selects[0] = new_selects[0].set_label_style(style)\n            self.selects = new_selects\n"), None)
+# helper-following / memoisation that survives the copy / copy-internals container kinds
+R.mutant("with-hint-helper-updates-in-place", SEL, sub(
+    "            self._hints = self._hints.union(\n                {\n                    (\n                        coercions.expect(roles.FromClauseRole, selectable),\n                        dialect_name,\n                    ): text\n                }\n            )\n        return self\n\n\nclass FromClause(",
+    "            self._hints.update(\n                {\n                    (\n                        coercions.expect(roles.FromClauseRole, selectable),\n                        dialect_name,\n                    ): text\n                }\n            )\n        return self\n\n\nclass FromClause("), "C03-R1")
+R.mutant("cloned-set-memo-survives-clone", "sql/elements.py", sub(
+    "    @HasMemoized.memoized_attribute\n    def _cloned_set(self):", "    @util.memoized_property\n    def _cloned_set(self):"), "C03-R1")
+R.mutant("copy-internals-tuple-visitor-returns-list", "sql/traversals.py", sub(
+    "    def visit_clauseelement_tuple(\n        self, attrname, parent, element, clone=_clone, **kw\n    ):\n        return tuple([clone(clause, **kw) for clause in element])",
+    "    def visit_clauseelement_tuple(\n        self, attrname, parent, element, clone=_clone, **kw\n    ):\n        return [clone(clause, **kw) for clause in element]"), "C03-R1")
+R.mutant("memoized-attribute-does-not-register", "util/langhelpers.py", sub(
+    "            obj.__dict__[self.__name__] = result = self.fget(obj)\n            obj._memoized_keys |= {self.__name__}\n",
+    "            obj.__dict__[self.__name__] = result = self.fget(obj)\n"), "C03-R2")
+R.mutant("generate-keeps-memoized", "sql/base.py", sub(
+    "                k: v for k, v in self.__dict__.copy().items() if k not in skip\n            }\n        else:\n            s.__dict__ = self.__dict__.copy()\n        return s",
+    "                k: v for k, v in self.__dict__.copy().items()\n            }\n        else:\n            s.__dict__ = self.__dict__.copy()\n        return s"), "C03-R2")
+R.mutant("benign-select-from-obj-omitted-and-rebound", SEL, sub(
+    "        self._from_obj = tuple(existing_from_obj) + tuple(add_froms)\n",
+    "        from_objs = tuple(existing_from_obj) + tuple(add_froms)\n        self._from_obj = from_objs\n"), None)
